@@ -927,6 +927,12 @@ fn send_buffer_full(rng: &mut Rng, seed: u64, verbose: bool) -> CaseOut {
             }
         }
         let bytes = w.conns[0].out.bytes.clone();
+        // (whatever the pieces: what is on the wire is whole packets, apart from a tail that a
+        // given-up request may still owe)
+        if let Some((off, why)) = &w.conns[0].out.error {
+            out.violations.push(viol("C15", "C15/send-buffer-full/stream-not-decodable", format!("request given up after {} of {} bytes, then {} with writes accepted {:?}: the outbound stream does not decode at offset {}: {}", k, len, next.kind(), ch, off, why)));
+            break;
+        }
         let results: Vec<String> = log.ops.iter().map(|o| format!("{}:{:?}", o.kind, o.outcome)).collect();
         match &reference {
             None => reference = Some((bytes, results)),
